@@ -305,6 +305,7 @@ func (p *PS) MineTemplate(expectSuccess bool) {
 	created := map[wire.OutPoint]*wire.TxOut{}
 	seen := map[wire.OutPoint]bool{}
 	var totalFees, totalSigops, weight int64
+	var shape []string // per-transaction weight (w = carries witness data), for violation reports
 	hasWitness := false
 	for i, tx := range blk.Transactions {
 		var prevScripts [][]byte
@@ -350,6 +351,11 @@ func (p *PS) MineTemplate(expectSuccess bool) {
 		}
 		cost := int64(refacct.TransactionSigOpCost(rt, prevScripts, true, true))
 		weight += rt.Weight()
+		if chaingen.HasWitness(tx) {
+			shape = append(shape, fmt.Sprintf("%dw", rt.Weight()))
+		} else {
+			shape = append(shape, fmt.Sprintf("%d", rt.Weight()))
+		}
 		totalSigops += cost
 		if tmpl.SigOpCosts[i] != cost {
 			p.Fail("template:sigopcost", "SigOpCosts[%d] = %d, independent count %d (tx %v)", i, tmpl.SigOpCosts[i], cost, h)
@@ -383,7 +389,7 @@ func (p *PS) MineTemplate(expectSuccess bool) {
 		p.Fail("template:consensus-limits", "template weight %d sigops %d", weight, totalSigops)
 	}
 	if weight > int64(pol.BlockMaxWeight) {
-		p.Fail("template:policy-max-weight", "template weight %d exceeds policy BlockMaxWeight %d", weight, pol.BlockMaxWeight)
+		p.Fail("template:policy-max-weight", "template weight %d exceeds policy BlockMaxWeight %d (transaction weights %v)", weight, pol.BlockMaxWeight, shape)
 	}
 	// witness commitment (own merkle code)
 	if hasWitness {
